@@ -261,9 +261,24 @@ def run(ctx) -> RuleResult:
             if not calls:
                 continue
             good = True
-            it = U(loop.iter)
+            # what the loop ranges over: the iterable itself, or X for 'range(len(X))' (an index loop over all of X);
+            # a local bound once stands for its value (coefficients1 = x1.coefficients)
+            target = loop.iter
+            if isinstance(target, ast.Call) and isinstance(target.func, ast.Name) and target.func.id == "range" \
+                    and len(target.args) == 1 and isinstance(target.args[0], ast.Call) and isinstance(target.args[0].func, ast.Name) \
+                    and target.args[0].func.id == "len" and len(target.args[0].args) == 1:
+                target = target.args[0].args[0]
+            for _ in range(3):
+                if isinstance(target, ast.Name):
+                    values = [n.value for n in ast.walk(func) if isinstance(n, ast.Assign) and len(n.targets) == 1
+                              and isinstance(n.targets[0], ast.Name) and n.targets[0].id == target.id]
+                    if len(values) == 1:
+                        target = values[0]
+                        continue
+                break
+            it = U(target)
             full = (".keys" in it or ".coefficients" in it) and "[" not in it.replace("[0]", "").replace("[1]", "") \
-                and "reversed" not in it
+                and "reversed" not in it and "range(" not in it
             result.ob(f"{name}: folds over all aligned columns", full, module.loc(loop), it)
             if not full:
                 result.add(Finding("R-CMP", module, name, loop.iter,
